@@ -107,4 +107,16 @@ theorem initDersReducedGen_eq_model (I : Inst) (m : Nat) (X : Vec) (hnd : I.sys.
     rfl
   rw [h1, h2, initDers_affine, initDersCode_eq _ _ _ hnd]
 
+/-! cached functions: the slots `transcribe()` fills only when empty, the slots `clear_transcription_cache()` resets -/
+def cacheSlotsGen : List String := ["dae_residual_function_collocated", "initial_residual_with_params_fun_map", "integrator_step_function"]
+def clearedSlotsGen : List String := ["dae_residual_function_collocated", "initial_residual_with_params_fun_map", "integrator_step_function"]
+
+theorem clearCoversCacheGen : ∀ s ∈ cacheSlotsGen, s ∈ clearedSlotsGen := by decide
+
+/-- after `clear_transcription_cache()` the next transcription is that of a fresh object with the current data -/
+theorem clearThenFreshGen {α β : Type} (build : α → String → β) (d : α) (cache : Cache β) :
+    transcribeWith cacheSlotsGen build d (clearSlots clearedSlotsGen cache)
+      = transcribeWith cacheSlotsGen build d (fun _ => none) :=
+  clear_then_fresh _ _ clearCoversCacheGen build d cache
+
 end RtcVerif.Gen
